@@ -454,3 +454,91 @@ Proof.
   - apply t_value_op.
   - apply t_value_op.
 Qed.
+
+(* ------------------------------------------------------------------ Slice.Slice *)
+
+(* allocate a frozen cell and go on *)
+Lemma new_frozen_then : forall A tg h ar c (k : addr -> mprog A) o h' (Q : A -> assertion),
+  Inv tg h -> frozen_ok tg h c -> exec ar (New c k) h = (o, h') ->
+  (forall x tg1 h1, Step tg h tg1 h1 -> tg1 x = TFrozen -> hget h1 x = Some c -> exec ar (k x) h1 = (o, h') ->
+     exists tg', Step tg1 h1 tg' h' /\ match o with Done a => Q a tg' h' | Crashed => True end) ->
+  exists tg', Step tg h tg' h' /\ match o with Done a => Q a tg' h' | Crashed => True end.
+Proof.
+  intros * HI Fc He Hk. rewrite exec_new in He. destruct (halloc ar h c) as [h1 x] eqn:A1.
+  destruct (hget_halloc_new _ _ _ _ _ _ A1) as [N1 O1].
+  assert (S1 : Step tg h (set_tag tg x TFrozen) h1) by (eapply step_new_frozen; eauto).
+  destruct (Hk x _ _ S1 (set_tag_same _ _ _) N1 He) as (tg' & S' & Ho).
+  exists tg'. split; [eapply step_trans; eauto | assumption].
+Qed.
+
+Lemma t_match_subset : forall cf r from to, triple (a_fref r) (match_subset cf r from to) pout_ok.
+Proof.
+  intros cf r from to tg h ar out h' HI HP He. unfold match_subset in He. unfold a_fref in HP.
+  pose proof (step_refl _ _ HI) as S0.
+  destruct (nref_kind r) eqn:Kr; try doneS S0; try crash0.
+  - (* string *)
+    rewrite exec_bind in He.
+    destruct (exec ar (acc_prog cf r (AScalar KString)) h) as [[x|] h0] eqn:Ea;
+      pose proof (exec_wfree _ _ (acc_wfree cf r (AScalar KString) ltac:(destruct r; reflexivity)) _ _ _ _ Ea); subst h0;
+      [|crashS S0].
+    destruct x; try doneS S0. destruct s; try doneS S0.
+    destruct (go_sliceBounds from to (Z.of_nat (length s))) as [[ok f] t]. destruct ok; [|doneS S0].
+    rewrite exec_bind in He.
+    match type of He with context [new_scalar_node ?sv] =>
+      destruct (exec ar (new_scalar_node sv) h) as [o1 h1] eqn:En;
+      destruct (t_new_scalar_node sv tg h ar o1 h1 HI I En) as (tg1 & S1 & F1) end.
+    destruct o1 as [n|]; [|crashS S1].
+    rewrite exec_ret in He. inversion He; subst. exists tg1. split; [exact S1 | exact F1].
+  - (* bytes *)
+    destruct r as [| | |sl|rd| | |d]; try discriminate; try crash0.
+    + (* plainBytes: a fresh bytes.Reader *)
+      eapply new_frozen_then; eauto; [exact HP|].
+      intros x tg1 h1 S1 Tx Gx He1. cbv beta in He1.
+      assert (Rx : rdr_at x tg1 h1) by (split; eauto).
+      rewrite exec_bind in He1. destruct (exec ar (rd_seek_end x) h1) as [o2 h2] eqn:E2.
+      destruct (t_rd_seek_end x tg1 h1 ar o2 h2 (proj1 S1) Rx E2) as (tg2 & S2 & _).
+      destruct o2 as [len|]; [|crashS S2].
+      pose proof (rdr_at_stable x _ _ _ _ Rx (proj2 S2)) as Rx2.
+      rewrite exec_bind in He1. destruct (exec ar (rd_seek x 0) h2) as [o3 h3] eqn:E3.
+      destruct (t_rd_seek x 0 tg2 h2 ar o3 h3 (proj1 S2) Rx2 E3) as (tg3 & S3 & _).
+      pose proof (step_trans _ _ _ _ _ _ S2 S3) as S23.
+      destruct o3 as [[]|]; [|crashS S23].
+      pose proof (rdr_at_stable x _ _ _ _ Rx2 (proj2 S3)) as Rx3.
+      destruct (go_sliceBounds from to (Z.of_nat len)) as [[ok f] t]. destruct ok; [|doneS S23].
+      eapply (new_frozen_then _ tg3 h3); eauto; [exact (proj1 S3) | exact Rx3 | |].
+      * exact He1.
+      * intros y tg4 h4 S4 Ty Gy He4. cbv beta in He4. rewrite exec_ret in He4. inversion He4; subst.
+        exists tg4. split; [|cbn; split; eauto].
+        eapply step_trans; [exact S23 | exact S4].
+    + (* streamBytes *)
+      assert (Rx : rdr_at rd tg h) by exact HP.
+      destruct (cf_stream_shared cf).
+      * rewrite exec_bind in He. destruct (exec ar (rd_seek_end rd) h) as [o2 h2] eqn:E2.
+        destruct (t_rd_seek_end rd tg h ar o2 h2 HI Rx E2) as (tg2 & S2 & _).
+        destruct o2 as [len|]; [|crashS S2].
+        pose proof (rdr_at_stable rd _ _ _ _ Rx (proj2 S2)) as Rx2.
+        rewrite exec_bind in He. destruct (exec ar (rd_seek rd 0) h2) as [o3 h3] eqn:E3.
+        destruct (t_rd_seek rd 0 tg2 h2 ar o3 h3 (proj1 S2) Rx2 E3) as (tg3 & S3 & _).
+        pose proof (step_trans _ _ _ _ _ _ S2 S3) as S23.
+        destruct o3 as [[]|]; [|crashS S23].
+        pose proof (rdr_at_stable rd _ _ _ _ Rx2 (proj2 S3)) as Rx3.
+        destruct (go_sliceBounds from to (Z.of_nat len)) as [[ok f] t]. destruct ok; [|doneS S23].
+        eapply (new_frozen_then _ tg3 h3); eauto; [exact (proj1 S3) | exact Rx3 | |].
+        -- exact He.
+        -- intros y tg4 h4 S4 Ty Gy He4. cbv beta in He4. rewrite exec_ret in He4. inversion He4; subst.
+           exists tg4. split; [|cbn; split; eauto].
+           eapply step_trans; [exact S23 | exact S4].
+      * rewrite exec_bind in He.
+        destruct (exec ar (rd_content rd_fuel rd) h) as [[data|] h0] eqn:Ec;
+          pose proof (exec_wfree _ _ (wfree_rd_content rd_fuel rd) _ _ _ _ Ec); subst h0; [|crashS S0].
+        destruct (go_sliceBounds from to (Z.of_nat (length data))) as [[ok f] t]. destruct ok; [|doneS S0].
+        eapply new_frozen_then; eauto; [exact Rx|].
+        intros y tg4 h4 S4 Ty Gy He4. cbv beta in He4. rewrite exec_ret in He4. inversion He4; subst.
+        exists tg4. split; [apply step_refl; exact (proj1 S4) | cbn; split; eauto].
+    + (* foreign bytes *)
+      destruct d; try discriminate; try crash0.
+      destruct (go_sliceBounds from to (Z.of_nat (length s))) as [[ok f] t]. destruct ok; [|doneS S0].
+      eapply new_frozen_then; eauto; [exact I|].
+      intros y tg4 h4 S4 Ty Gy He4. cbv beta in He4. rewrite exec_ret in He4. inversion He4; subst.
+      exists tg4. split; [apply step_refl; exact (proj1 S4)|]. cbn. unfold bslice_ok; cbn. split; eauto.
+Qed.
